@@ -489,6 +489,50 @@ func init() {
 		finish(x, n, nil, "")
 	})
 
+	// S-stale-sync-vs-trigger: the node (leader) commits height 1 itself and is then held inside a slow
+	// RequestNewBlockProposal(h2). A STALE sync (block 1, below the height being decided) is queued for the worker,
+	// then the (h2,v0) timer expires and its trigger is queued too. Once released the worker finds both waiting, in
+	// either order: the stale sync must change nothing (C14) and the trigger must still be acted upon (C19): the
+	// node has to reach (h2,v1).
+	registerBoth("S-stale-sync-vs-trigger", []string{"C14", "C19"}, 1, 3, 4, func(x *X, cancel bool) {
+		n := newNode(x, 0)
+		hold := make(chan struct{})
+		n.HoldReq[2] = hold
+		n.Boot() // leader of (h1,v0): proposes Pn0.1.0
+		feed(n, n.peerMsgs(1, "Pn0.1.0")) // commits height 1, becomes leader of (h2,v0), held in RequestNewBlockProposal(h2)
+		s := x.S
+		if len(n.Commits) != 1 || uint64(n.M.State().Height()) != 2 {
+			x.Bad("HARNESS", "assumption", "prefix did not reach height 2: commits=%v events=%v", n.Commits, tail(n.Events, 8))
+		}
+		s.NoBranch = true
+		s.Thread("stale-sync", func() { n.M.UpdateState(n.Ctx, kit.NewBlock(1, "Pn0.1.0"), n.Proofs[1]) })
+		s.Run(20000) // the stale sync is queued behind the held worker ...
+		s.PrefixFires = 1
+		s.Run(20000) // ... and so is the trigger of the expired (h2,v0) timer
+		s.PrefixFires = 0
+		s.NoBranch = false
+		s.Thread("release", func() {
+			vs.Closed(hold)
+			close(hold)
+		})
+		addCancel(n, cancel)
+		if !s.Run(20000) {
+			x.Bad("C16", "livelock", "step horizon reached")
+		}
+		if !cancel && s.Quiescent() {
+			h, v := uint64(n.M.State().Height()), uint64(n.M.State().View())
+			if h != 2 {
+				x.Bad("C14", "stale-sync-changed-state", "a sync below the height being decided moved the node to height %d", h)
+			} else if v == 0 {
+				x.Bad("C19", "trigger-lost", "the election timer of (h2,v0) expired but the node is still in (h2,v0) (events %v)", tail(n.Events, 8))
+			}
+			if len(n.Rounds) > 2 {
+				x.Bad("C14", "stale-sync-changed-state", "stale sync restarted the round: new-round callbacks %v", n.Rounds)
+			}
+		}
+		finish(x, n, nil, "")
+	})
+
 	// S-state: the State object alone. One writer (the worker's role: view change, then next height), one reader
 	// taking two (height, view) snapshots. Every snapshot must be a state that existed, and snapshots never go back.
 	register(&Scenario{Name: "S-state", Props: []string{"C13"}, MaxFires: 0, Horizon: 2000, Body: func(x *X) {
